@@ -122,7 +122,7 @@ func (p *proc) exchange(m Msg, id int) (rep reply, died bool, herr error) {
 		return reply{crashed: true, panicV: "write failed: " + err.Error()}, true, nil
 	}
 	want := 1
-	if m.isNotification() {
+	if m.isUpdate() {
 		want = 2 // publishDiagnostics, then the (null) response the server sends for every message
 	}
 	for k := 0; k < want; k++ {
